@@ -24,14 +24,20 @@ def Agree (ctx : Ctx) (w : WCtx) : Prop :=
 theorem body_ok_wf (tf : TypeEnv) (ctx : Ctx) (d : Data) (cs : List Xml) (only : Bool) (ctx' : Ctx) (d' : Data)
     (w : WCtx) (hagree : Agree ctx w) (h : genBody tf ctx d cs only = .ok (ctx', d')) :
     ∃ w', wfBody w cs only = some w' ∧ Agree ctx' w' := by
-  sorry
+  obtain ⟨w', hw, ha, _⟩ := body_sim tf cs only ctx d ctx' d' w hagree h
+  exact ⟨w', hw, ha⟩
 
 /-- **Specification level**: if the generator accepts a forest, every struct and packet in it is
     well-formed. Equivalently: an ill-formed struct or packet anywhere in any file is rejected. -/
 theorem rejects_ill_formed (files : List ProtoFile) (f : ProtoFile) (hf : f ∈ files) (e : Xml)
     (he : e ∈ f.root.findall "struct" ∨ e ∈ f.root.findall "packet") (hbad : wfClass e = false) :
     ∃ m, compile files = .error m := by
-  sorry
+  cases hc : compile files with
+  | error m => exact ⟨m, rfl⟩
+  | ok out =>
+    have := compile_wfClass hc hf he
+    rw [hbad] at this
+    cases this
 
 /-! Non-vacuity: concrete ill-formed bodies at different placements (tests, labelled as such). -/
 private def fld (n : String) (extra : List (String × String) := []) : Xml :=
